@@ -53,6 +53,8 @@ TIE_PROPS = {'C01', 'C02', 'C03', 'C04', 'C05', 'C07', 'C08', 'C13', 'C15', 'C16
 def gen_translated():
     """run the Python -> Lean translator; a translator failure never fails a check: the generated file then holds the
     model's own functions (fallback) and the TIE theorems hold trivially"""
+    if os.environ.get('VERIF_NO_TIE'):
+        return 'skipped (VERIF_NO_TIE: tooling runs that only look for failing inputs)'
     try:
         rc, out = sh([PY, os.path.join(VERIF, 'harness', 'py2lean.py')], cwd=VERIF, timeout=300)
     except Exception as e:
@@ -185,7 +187,7 @@ def proof_obligations(prop_id):
 
 def add_tie(prop_id, info, toks=()):
     """the TIE_* theorems are proof obligations of every property whose model uses the translated functions"""
-    if prop_id not in TIE_PROPS:
+    if prop_id not in TIE_PROPS or os.environ.get('VERIF_NO_TIE'):
         return
     tie = tie_obligations()
     info['tie'] = tie
